@@ -383,7 +383,7 @@ func Run[P any](t *testing.T, s *Suite, kind string, base int, gen func(*rapid.T
 	s.kinds[kind].Requested += n
 	s.mu.Unlock()
 	flag.Set("rapid.checks", strconv.Itoa(n))
-	name := fmt.Sprintf("fail-%s-seed%s.json", kind, os.Getenv("VERIF_SEED"))
+	name := fmt.Sprintf("fail-%s-seed%s%s.json", kind, os.Getenv("VERIF_SEED"), partTag())
 	rapid.Check(t, func(rt *rapid.T) {
 		plan := gen(rt)
 		if v := Exec(s, kind, plan, exec); v != nil {
@@ -395,6 +395,13 @@ func Run[P any](t *testing.T, s *Suite, kind string, base int, gen func(*rapid.T
 			rt.Fatalf("%s/%s: %v", s.Prop, kind, v)
 		}
 	})
+}
+
+func partTag() string {
+	if p := os.Getenv("VERIF_PART"); p != "" && p != "j0-s0" {
+		return "-" + p
+	}
+	return ""
 }
 
 func replayOne[P any](t *testing.T, s *Suite, kind, path string, exec func(P) (Outcome, error), strict bool) {
@@ -454,7 +461,7 @@ func Direct[P any](t *testing.T, s *Suite, kind string, plan P, exec func(P) (Ou
 	s.kinds[kind].Requested++
 	s.mu.Unlock()
 	if v := Exec(s, kind, plan, exec); v != nil {
-		p := s.writeReplay(fmt.Sprintf("fail-%s-seed%s.json", kind, os.Getenv("VERIF_SEED")), kind, plan, v)
+		p := s.writeReplay(fmt.Sprintf("fail-%s-seed%s%s.json", kind, os.Getenv("VERIF_SEED"), partTag()), kind, plan, v)
 		fmt.Printf("VERIF-FAIL property=%s kind=%s replay=%s\n", s.Prop, kind, p)
 		t.Fatalf("%s/%s: %v", s.Prop, kind, v)
 		return false
